@@ -519,8 +519,11 @@ class LoopSpec:
     """Loop invariant: invariant(c, L, entry, cur) -> [(label, Bool)]; assigns(c, L) -> [Region].
     L gives the current values of the enclosing function's locals by name (z3 terms)."""
 
-    def __init__(self, invariant, assigns=None, variant=None, note="", ptr_locals=None):
+    def __init__(self, invariant, assigns=None, variant=None, note="", ptr_locals=None, ptr_cells=None):
         self.invariant, self.assigns, self.variant, self.note = invariant, assigns, variant, note
+        # pointer-valued MEMBERS written in the loop: [(fn(c) -> (object Ptr, "member.path"), fn(c, L, cur) -> Ptr)]: the value
+        # the member has at the loop head as a function of the rest of the state (checked on entry and after the body)
+        self.ptr_cells = ptr_cells or []
         # pointer-typed locals assigned in the loop: name -> fn(c, L, cur) giving the pointer as a function of the rest of
         # the state (re-established by every iteration: obligation).  Pointer locals without an entry are havocked to
         # `uninitialised` (any read before the body assigns them is a failed obligation).
@@ -545,6 +548,29 @@ class LoopSpec:
         finally:
             c.polarity = "assume"
 
+    def _cell_checks(self, E, fr, tag, phase, s):
+        c = E.ctx
+        for getter, want_fn in self.ptr_cells:
+            obj, path = getter(c)
+            v = View(E, E.state)
+            q = v._resolve(obj, path, [])
+            act = E.state.pmem.get((q.block.id, q.shape()))
+            want = want_fn(c, Locals(E, fr), View(E, E.state.snapshot()))
+            same = act is not None and ((act.block is None and want.block is None) or
+                                        (act.block is want.block and act.shape() == want.shape() and
+                                         isinstance(act.null, bool) and not act.null))
+            if not same:
+                E.require("inv", "%s.%s.pointer_%s" % (tag, phase, path), False, s)
+            elif act.block is not None:
+                eqs = [zt(x[1]) == zt(y[1]) for x, y in zip(act.steps, want.steps) if x[0] == "i"]
+                E.require("inv", "%s.%s.pointer_%s" % (tag, phase, path), z3.And(eqs) if eqs else True, s)
+
+    def _cell_set(self, E, fr):
+        c = E.ctx
+        for getter, want_fn in self.ptr_cells:
+            obj, path = getter(c)
+            c.set_ptr(obj, path, want_fn(c, Locals(E, fr), View(E, E.state.snapshot())))
+
     def run(self, E, s, fr, cond, inc, body):
         c = E.ctx
         ordn = E.tu.loops_of(fr.fname)[s["id"]]
@@ -560,6 +586,7 @@ class LoopSpec:
             else:
                 eqs = [zt(x[1]) == zt(y[1]) for x, y in zip(act.steps, p.steps) if x[0] == "i"]
                 E.require("inv", "%s.inv_on_entry.pointer_%s" % (tag, name), z3.And(eqs) if eqs else True, s)
+        self._cell_checks(E, fr, tag, "inv_on_entry", s)
         # havoc
         for did in sorted(E.assigned_locals(s)):
             if did in fr.locals:
@@ -587,6 +614,7 @@ class LoopSpec:
             E.assume(g)
         for did, (name, p) in self._ptr_defs(E, fr).items():
             fr.locals[did] = p
+        self._cell_set(E, fr)
         v0 = self.variant(c, Locals(E, fr), View(E, E.state.snapshot())) if self.variant else None
         E.wguards.append((allowed, E.nblocks + 1, "%s of %s" % (tag, fr.fname)))
         try:
@@ -611,6 +639,7 @@ class LoopSpec:
             else:
                 eqs = [zt(x[1]) == zt(y[1]) for x, y in zip(act.steps, p.steps) if x[0] == "i"]
                 E.require("inv", "%s.inv_preserved.pointer_%s" % (tag, name), z3.And(eqs) if eqs else True, s)
+        self._cell_checks(E, fr, tag, "inv_preserved", s)
         if v0 is not None:
             v1 = self.variant(c, Locals(E, fr), View(E, E.state.snapshot()))
             E.require("inv", "%s.variant_decreases" % tag, z3.And(v0 >= 0, v1 < v0), s)
